@@ -1500,16 +1500,8 @@ class _AssociationList(_AssociationSingleItem[_T], MutableSequence[_T]):
         if not isinstance(index, slice):
             self._set(self.col[index], cast("_T", value))
         else:
-            if index.stop is None:
-                stop = len(self)
-            elif index.stop < 0:
-                stop = len(self) + index.stop
-            else:
-                stop = index.stop
-            step = index.step or 1
-
-            start = index.start or 0
-            rng = list(range(index.start or 0, stop, step))
+            start, stop, step = index.indices(len(self))
+            rng = list(range(start, stop, step))
 
             sized_value = list(value)
 
